@@ -3,8 +3,8 @@
    (hypotheses of the theorems; sampled against scipy.stats.norm.ppf at run time). *)
 From Coq Require Import Reals QArith List.
 From Zepid Require Import Base.Wald Base.QSum Base.Rows Model.Estimators Model.Variance Proofs.VarianceProofs
-     GenProofs.GenProofs_calc GenProofs.GenProofs_ic GenProofs.GenProofs_pool GenProofs.GenProofs_wprod GenProofs.GenProofs_xfvar GenProofs.GenProofs_drci.
-From ZepidGen Require Import Gen_calc_R Gen_ic_Q Gen_aipw_Q Gen_pool_Q Gen_wprod_Q Gen_xfvar_Q Gen_drci_R.
+     GenProofs.GenProofs_calc GenProofs.GenProofs_ic GenProofs.GenProofs_pool GenProofs.GenProofs_wprod GenProofs.GenProofs_xfvar GenProofs.GenProofs_drci GenProofs.GenProofs_xftmle.
+From ZepidGen Require Import Gen_calc_R Gen_ic_Q Gen_aipw_Q Gen_pool_Q Gen_wprod_Q Gen_xfvar_Q Gen_drci_R Gen_xftmle_Q.
 Import ListNotations.
 
 Definition zq_ok (zq : R -> R) : Prop :=
@@ -188,6 +188,34 @@ Example C06_nonvacuous : fst (pool true [1#2; 1#4; 3#4] [1#100; 1#100; 4#100]) =
   var_ddof1 [1; 2; 4] == 7 # 3 /\ ic_var [Some 1; None; Some 2; Some 4] 4 == 7 # 12.
 Proof. vm_compute. repeat split; reflexivity. Qed.
 
+(* ---- cross-fit TMLE: crossfit.tmle_calculator and the clever covariates of crossfit.targeting_step in the CURRENT source.
+   Risk difference / ATE and odds ratio: the variance of a partition IS the influence-curve variance (the influence values of
+   TMLE.fit with the means of the part; within-part sample variance, mean over the parts, over n).  Risk ratio: it is NOT -- it
+   is xf_tmle_var_rr_code, proved below together with an explicit two-row witness (recorded finding). *)
+Theorem C06_src_xf_tmle_estimates : forall all,
+  xf_tmle_est_rd_Q all = xf_tmle_est_rd all /\ xf_tmle_est_rr_Q all = xf_tmle_est_rr all /\ xf_tmle_est_or_Q all = xf_tmle_est_or all.
+Proof. exact gen_xf_tmle_est. Qed.
+Theorem C06_src_xf_tmle_variance_rd : forall est parts n, xf_tmle_var_rd_Q est parts n == xf_tmle_var_rd est parts n.
+Proof. exact gen_xf_tmle_var_rd. Qed.
+Theorem C06_src_xf_tmle_variance_or : forall est parts n, xf_tmle_var_or_Q est parts n == xf_tmle_var_or parts n.
+Proof. exact gen_xf_tmle_var_or. Qed.
+Theorem C06_src_xf_tmle_variance_rr_is_code : forall est parts n, xf_tmle_var_rr_Q est parts n == xf_tmle_var_rr_code parts n.
+Proof. exact gen_xf_tmle_var_rr_is_code. Qed.
+Theorem C06_src_xf_tmle_variance_rr_refuted :
+  exists parts n est, 0 < n /\ ~ xf_tmle_var_rr_Q est parts n == xf_tmle_var_rr parts n.
+Proof. exact gen_xf_tmle_var_rr_refuted. Qed.
+Theorem C06_xf_influence_values_are_tmle : forall est m1 m0 r, obs r = true ->
+  tmle_ic_rd est r = Some (xf_ic_rd est (to_x r)) /\ tmle_ic_rr m1 m0 r = Some (xf_ic_rr m1 m0 (to_x r)) /\
+  tmle_ic_or m1 m0 r = Some (xf_ic_or m1 m0 (to_x r)).
+Proof. exact xf_ic_is_tmle_ic. Qed.
+Theorem C06_src_xf_targeting_covariates : forall (a : bool) pa1 pa0 h1w h0w pya pyn,
+  xf_ts_h1w_Q a pa1 == ind a / pa1 /\ xf_ts_h0w_Q a pa0 == - (1 - ind a) / pa0 /\
+  xf_ts_haw_Q a h0w h1w == h1w + h0w /\ xf_ts_py_o_Q a pya pyn == (if a then pya else pyn).
+Proof. exact gen_xf_targeting. Qed.
+Theorem C06_xf_tmle_variance_nonneg : forall est parts n, parts <> [] -> Forall (fun p => (2 <= length p)%nat) parts -> 0 < n ->
+  0 <= xf_tmle_var_rd est parts n /\ 0 <= xf_tmle_var_rr parts n /\ 0 <= xf_tmle_var_or parts n /\ 0 <= xf_tmle_var_rr_code parts n.
+Proof. exact xf_tmle_var_nonneg. Qed.
+
 Print Assumptions C06_wald_lin_contains.
 Print Assumptions C06_wald_lin_nested.
 Print Assumptions C06_wald_log_contains.
@@ -232,3 +260,11 @@ Print Assumptions C06_src_tmle_ci_rd.
 Print Assumptions C06_src_tmle_ci_rr.
 Print Assumptions C06_src_tmle_ci_or.
 Print Assumptions C06_src_tmle_rd_at005.
+Print Assumptions C06_src_xf_tmle_estimates.
+Print Assumptions C06_src_xf_tmle_variance_rd.
+Print Assumptions C06_src_xf_tmle_variance_or.
+Print Assumptions C06_src_xf_tmle_variance_rr_is_code.
+Print Assumptions C06_src_xf_tmle_variance_rr_refuted.
+Print Assumptions C06_xf_influence_values_are_tmle.
+Print Assumptions C06_src_xf_targeting_covariates.
+Print Assumptions C06_xf_tmle_variance_nonneg.
